@@ -291,6 +291,19 @@ pub fn gen_program(r: &mut Rng, max_q: usize, with_nonunitary: bool) -> Program 
                 let (cn, cs) = r.pick(&env.cregs).clone();
                 let j = r.below(cs);
                 let qa = r.pick(&qubits).clone();
+                if r.chance(1, 3) {
+                    // twin guards: the same condition twice, with unconditional gates on the same qubit in between that
+                    // do not commute with the guarded ones (the order guarded / plain / guarded is observable)
+                    let v = if r.chance(2, 3) { 0 } else { r.below(1 << cs) };
+                    stmts.push(format!("if({cn}=={v}) x {qa};"));
+                    stmts.push(format!("h {qa};"));
+                    if r.chance(1, 2) {
+                        stmts.push(format!("t {qa};"));
+                    }
+                    stmts.push(format!("if({cn}=={v}) x {qa};"));
+                    stmts.push(format!("h {qa};"));
+                    continue;
+                }
                 let vals = [0usize, 1 << j, r.below(1 << cs), (1usize << cs) - 1];
                 let (v0, v1) = (*r.pick(&vals[..]), *r.pick(&vals[..]));
                 stmts.push(format!("reset {qa};"));
